@@ -90,8 +90,8 @@ Mixed3DS == << Tex(NmB, 8, 8, L8, 81), Tex(NmA, 8, 8, RGBA8, 82), Tex(NmF, 8, 8,
 \* ---- integer-width boundaries of the size fields: w * h = 65 536 does not fit the 16 bits of
 \* the width / height fields' own type, and a payload of exactly 65 536 bytes
 BigSquare == Tex(NmA, 256, 256, L8, 70)
-BigWide   == Tex(NmC, 512, 128, A8, 71)
-BigBytes  == Tex(NmD, 256, 128, RGB565, 73)
+BigWide   == IF Quick THEN T3 ELSE Tex(NmC, 512, 128, A8, 71)        \* (thorough only: TLC evaluates every constant)
+BigBytes  == IF Quick THEN T3 ELSE Tex(NmD, 256, 128, RGB565, 73)
 IsBigList(v) == \E i \in 1..Len(v) : Len(v[i].payload) >= 65536
 
 Lists3DS(c) ==
@@ -190,9 +190,9 @@ ListsBch  == Lists3DS("bch")
 ListsCgfx == Lists3DS("cgfx")
 Lists(c) == CASE c = "ctpk" -> ListsCtpk [] c = "bch" -> ListsBch [] c = "cgfx" -> ListsCgfx [] c = "tpl" -> ListsTpl
 
-\* (the lists with a 64 KiB payload get every 8th placement of the thorough product)
+\* (the lists with a 64 KiB payload get the first and then every 8th placement)
 Cases == UNION { UNION { { <<c, vi, pi>> : pi \in { q \in 1..Len(Placements(c)) :
-                                                     Quick \/ ~IsBigList(Lists(c)[vi]) \/ q % 8 = 1 } }
+                                                     ~IsBigList(Lists(c)[vi]) \/ q % 8 = 1 } }
                          : vi \in 1..Len(Lists(c)) }
                  : c \in Containers }
 CaseSeq == SetToSeq(Cases)
@@ -237,20 +237,7 @@ Law(c, v, p) ==
      /\ ChecksMagic(c) => \A at \in 1..4 : \A x \in {1, 128} : ~WellFormed(c, Damaged(f, at, x))
      \* the canonical placement is one of the layouts
      /\ (c = "ctpk" /\ p = CtpkCanonP) => f = CtpkCanon(v)
-\* coverage of the model itself (vacuity guards, evaluated on the root state): every container has
-\* a file in which a texture with a smaller payload than its predecessor ends the file, and a
-\* texture whose width * height reaches 65 536
-ShrinkAtEof(c, v, p) ==
-  \E i \in 2..Len(v) : Len(v[i].payload) < Len(v[i - 1].payload) /\ Extents(c, v, p)[i][2] = Len(File(c, v, p))
-DecList(c) == IF c = "tpl" THEN DecTpl ELSE Dec3DS
-CoverInv ==
-  k = <<"root">> =>
-    \A c \in Containers :
-      /\ \E vi \in 1..Len(Lists(c)) : Lists(c)[vi] = DecList(c)
-                                      /\ \E pi \in 1..Len(Placements(c)) : ShrinkAtEof(c, DecList(c), Placements(c)[pi])
-      /\ \E vi \in 1..Len(Lists(c)) : \E i \in 1..Len(Lists(c)[vi]) : Lists(c)[vi][i].w * Lists(c)[vi][i].h >= 65536
-LawInv == /\ CoverInv
-          /\ IsCase => Law(k[1], Lists(k[1])[k[2]], Placements(k[1])[k[3]])
+LawInv == IsCase => Law(k[1], Lists(k[1])[k[2]], Placements(k[1])[k[3]])
 
 \* ------------------------------------------------------------------ generator
 Emit ==
@@ -264,5 +251,9 @@ Emit ==
                              exp |-> [i \in 1..Len(v) |-> [name |-> IF c = "tpl" THEN <<>> ELSE v[i].name,
                                                            w |-> v[i].w, h |-> v[i].h]],
                              ext |-> ext, min_ok |-> MinOk(ext), magic |-> ChecksMagic(c),
+                             \* coverage of the model (vacuity guards read by the check): a texture with a
+                             \* smaller payload than its predecessor ends the file; most texels of a texture
+                             shrink_eof |-> \E i \in 2..Len(v) : Len(v[i].payload) < Len(v[i - 1].payload) /\ ext[i][2] = Len(f),
+                             max_texels |-> IF Len(v) = 0 THEN 0 ELSE MaxOf({ v[i].w * v[i].h : i \in 1..Len(v) }),
                              reject_by |-> SetToSeq({ r \in Containers \ {c} : ChecksMagic(r) /\ ~MagicOK(r, f) })]))
 =============================================================================
